@@ -16,6 +16,54 @@ def fmt(gs):
     return ' && '.join(('' if p else '!') + a for a, p in gs)
 
 
+def parity_size_prefix_rule(P, rep, rid):
+    """parity_size over recorded sizes x real file sizes equals the usable prefix (shared by C14 and C17)"""
+    # the quantity the short-parity interlock compares: what the parity files really hold, never more (a recorded split size larger
+    # than the file means the parity was truncated or replaced)
+    from .. import region as RG
+    import itertools as _it
+    rep.rule(rid, 'parity_size (the size the short-parity interlock of state_sync compares with the used size) never counts bytes the split files do not hold: over recorded sizes x real file sizes it equals the usable prefix: the sum of min(recorded, on disk) up to and including the first split that is shorter than recorded', 20)
+    ps = P.fn('parity_size')
+    rep.analysed(ps)
+    s = P.fn('state_sync')
+    uses = [c_ for c_ in s.calls('parity_size')]
+    if not uses:
+        raise AnalysisBroken('state_sync no longer measures the parity with parity_size')
+    dh = P.distructs.get('snapraid_parity_handle'); dsp = P.distructs.get('snapraid_split_handle'); dst = P.distructs.get('stat')
+    if not (dh and dsp and dst):
+        raise AnalysisBroken('parity layouts not found')
+    def off_(d, name):
+        return [m_ for m_ in d['members'] if m_['name'] == name][0]['off']
+    H_MAC, H_MAP = off_(dh, 'split_mac'), off_(dh, 'split_map')
+    S_SIZE, S_ST = off_(dsp, 'size'), off_(dsp, 'st') + off_(dst, 'st_size')
+    for mac in (1, 2):
+        for rec in _it.product((8, 16), repeat=mac):
+            for disk in _it.product((0, 8, 16), repeat=mac):
+                R = RG.Region(P)
+                hp = RG.P_(('obj', 'handle'), 0); R.zero_regions.add(hp.reg)
+                R.mem[(hp.reg, H_MAC)] = mac
+                for k_ in range(mac):
+                    R.mem[(hp.reg, H_MAP + k_ * dsp['size'] + S_SIZE)] = rec[k_]
+                    R.mem[(hp.reg, H_MAP + k_ * dsp['size'] + S_ST)] = disk[k_]
+                out = R.array('out', [0], 8)
+                try:
+                    R.run(ps, 0, [hp, out])
+                except RG.Unsupported as e:
+                    raise AnalysisBroken('cannot interpret parity_size: %s' % e)
+                got = RG.signed(R.mem[(out.reg, 0)], 64)
+                # the parity is usable only up to the first split that is shorter than recorded: every position behind the missing part
+                # maps to a wrong offset, so nothing after it counts (F18: a plain sum let a later split hide the shortfall)
+                want = 0
+                for a_, b_ in zip(rec, disk):
+                    want += min(a_, b_)
+                    if b_ < a_:
+                        break
+                rep.check(got == want, rid, 'recorded split sizes %s, files on disk %s' % (list(rec), list(disk)), ps.file,
+                          'reports %d bytes' % got if got == want else 'reports %d bytes of parity although only the first %d are usable (a split shorter than recorded ends the usable parity): a truncated or replaced parity file passes the interlock and sync re-extends it with zeros' % (got, want),
+                          function='parity_size', construct='parity size counts recorded bytes')
+
+
+
 def used_parity_covers_skippable_rule(P, rep, rid):
     """the short-parity interlock compares the size of the parity files with `the parity in use` (parity_used_size).  In use means:
     sync will rely on what is stored there WITHOUT rewriting it.  That is the case for every synced block (BLK) -- and for a CHG
@@ -234,49 +282,7 @@ def run(ctx, rep):
     oku = len(ul) == 1 and all(ul[0].id in m.reach([b]) and b.id not in m.reach([ul[0]]) for b in bodies)
     rep.check(oku, 'R-C14-3', 'main: lock released only after every command body', m.file, '', function='main', construct='unlock after body')
 
-    # the quantity the short-parity interlock compares: what the parity files really hold, never more (a recorded split size larger
-    # than the file means the parity was truncated or replaced)
-    from .. import region as RG
-    import itertools as _it
-    rep.rule('R-C14-1s', 'parity_size (the size the short-parity interlock of state_sync compares with the used size) never counts bytes the split files do not hold: over recorded sizes x real file sizes it equals the usable prefix: the sum of min(recorded, on disk) up to and including the first split that is shorter than recorded', 20)
-    ps = P.fn('parity_size')
-    rep.analysed(ps)
-    uses = [c_ for c_ in s.calls('parity_size')]
-    if not uses:
-        raise AnalysisBroken('state_sync no longer measures the parity with parity_size')
-    dh = P.distructs.get('snapraid_parity_handle'); dsp = P.distructs.get('snapraid_split_handle'); dst = P.distructs.get('stat')
-    if not (dh and dsp and dst):
-        raise AnalysisBroken('parity layouts not found')
-    def off_(d, name):
-        return [m_ for m_ in d['members'] if m_['name'] == name][0]['off']
-    H_MAC, H_MAP = off_(dh, 'split_mac'), off_(dh, 'split_map')
-    S_SIZE, S_ST = off_(dsp, 'size'), off_(dsp, 'st') + off_(dst, 'st_size')
-    for mac in (1, 2):
-        for rec in _it.product((8, 16), repeat=mac):
-            for disk in _it.product((0, 8, 16), repeat=mac):
-                R = RG.Region(P)
-                hp = RG.P_(('obj', 'handle'), 0); R.zero_regions.add(hp.reg)
-                R.mem[(hp.reg, H_MAC)] = mac
-                for k_ in range(mac):
-                    R.mem[(hp.reg, H_MAP + k_ * dsp['size'] + S_SIZE)] = rec[k_]
-                    R.mem[(hp.reg, H_MAP + k_ * dsp['size'] + S_ST)] = disk[k_]
-                out = R.array('out', [0], 8)
-                try:
-                    R.run(ps, 0, [hp, out])
-                except RG.Unsupported as e:
-                    raise AnalysisBroken('cannot interpret parity_size: %s' % e)
-                got = RG.signed(R.mem[(out.reg, 0)], 64)
-                # the parity is usable only up to the first split that is shorter than recorded: every position behind the missing part
-                # maps to a wrong offset, so nothing after it counts (F18: a plain sum let a later split hide the shortfall)
-                want = 0
-                for a_, b_ in zip(rec, disk):
-                    want += min(a_, b_)
-                    if b_ < a_:
-                        break
-                rep.check(got == want, 'R-C14-1s', 'recorded split sizes %s, files on disk %s' % (list(rec), list(disk)), ps.file,
-                          'reports %d bytes' % got if got == want else 'reports %d bytes of parity although only the first %d are usable (a split shorter than recorded ends the usable parity): a truncated or replaced parity file passes the interlock and sync re-extends it with zeros' % (got, want),
-                          function='parity_size', construct='parity size counts recorded bytes')
-
+    parity_size_prefix_rule(P, rep, 'R-C14-1s')
     short_parity_interlock_rule(P, rep, 'R-C14-1p')
     used_parity_covers_skippable_rule(P, rep, 'R-C14-1u')
     empty_disk_interlock_rule(P, rep, 'R-C14-1e')
